@@ -255,6 +255,16 @@ func (w *world) exec(tok string) (obs string) {
 		return "-"
 	case "get":
 		return "s" + w.idx(media.Get(string(Unhx(f[1]))))
+	case "goc": // media.GetOrCreate: the lookup of every consumer path (RTSP, WSP, HTTP-FLV, HLS); no route matches these paths
+		p := string(Unhx(f[1]))
+		cp := utils.CanonicalPath(p)
+		for _, st := range w.streams {
+			if st.Path() == cp && st.VerifStatus() != media.StreamOK {
+				w.dist["goc-on-path-of-a-closed-stream"]++
+				break
+			}
+		}
+		return "s" + w.idx(media.GetOrCreate(p))
 	case "count":
 		sc, cc := media.Count()
 		return fmt.Sprintf("n%d/%d", sc, cc)
@@ -407,8 +417,10 @@ func (g *gen) op() string {
 	case k < 77:
 		g.nTask++
 		return fmt.Sprintf("idle:%d", g.stream())
-	case k < 86:
+	case k < 83:
 		return "get:" + Hx([]byte(spelling(r, basePaths[r.Intn(len(basePaths))])))
+	case k < 86:
+		return "goc:" + Hx([]byte(spelling(r, basePaths[r.Intn(len(basePaths))])))
 	case k < 89:
 		return "info:" + Hx([]byte(spelling(r, basePaths[r.Intn(len(basePaths))])))
 	case k < 93:
@@ -448,6 +460,9 @@ func genHistory(r *Rng, n int) []string {
 	// closing observations: every path, the counts, every stream
 	for _, p := range basePaths {
 		ops = append(ops, "get:"+Hx([]byte(p)))
+	}
+	for _, p := range basePaths {
+		ops = append(ops, "goc:"+Hx([]byte(p)))
 	}
 	for _, p := range basePaths {
 		ops = append(ops, "info:"+Hx([]byte(p)))
@@ -516,6 +531,135 @@ func genIdleHistory(r *Rng) []string {
 	return ops
 }
 
+// genLookupHistory: a history about what the lookups answer in every state a stream goes through, in
+// particular "closed but still registered" (closed by its owner, by the management API or by the idle task
+// before its publisher has unregistered it): after EVERY operation every lookup entry point is observed for
+// the path (GetOrCreate and Get under two spellings, the info API, Count, the listing) and for a path that
+// never had a stream.  One or two paths; a successor may be registered over the closed predecessor.
+func genLookupHistory(r *Rng) []string {
+	p := basePaths[r.Intn(len(basePaths))]
+	other := basePaths[r.Intn(len(basePaths))]
+	var ops []string
+	observe := func() {
+		ops = append(ops, "goc:"+Hx([]byte(spelling(r, p))), "get:"+Hx([]byte(spelling(r, p))), "goc:"+Hx([]byte(p)),
+			"info:"+Hx([]byte(spelling(r, p))), "count", "infos:-:10")
+		if other != p {
+			ops = append(ops, "goc:"+Hx([]byte(spelling(r, other))), "get:"+Hx([]byte(other)))
+		}
+		ops = append(ops, "goc:"+Hx([]byte("/never/registered")))
+	}
+	do := func(o ...string) {
+		for _, x := range o {
+			ops = append(ops, x)
+			observe()
+		}
+	}
+	nStream, nTask := 0, 0
+	newStream := func(path string) int {
+		do(fmt.Sprintf("new:%s:%s", Hx([]byte(spelling(r, path))), B01(r.Chance(50))))
+		nStream++
+		return nStream - 1
+	}
+	seeds := map[int]int{}
+	var joined [][3]int
+	join := func(i int) {
+		flv := b2i(r.Chance(50))
+		seeds[i]++
+		joined = append(joined, [3]int{i, flv, seeds[i]})
+		do(fmt.Sprintf("join:%d:%d", i, flv))
+	}
+	closed := map[int]bool{}
+	attached := func(i int) (n int) {
+		for _, j := range joined {
+			if j[0] == i {
+				n++
+			}
+		}
+		return n
+	}
+	// close stream i (registered under path q) without unregistering it
+	closeIt := func(i int, q string) {
+		defer func() {
+			closed[i] = true
+			for j := 0; j < len(joined); { // a close detaches everything
+				if joined[j][0] == i {
+					joined = append(joined[:j], joined[j+1:]...)
+				} else {
+					j++
+				}
+			}
+		}()
+		switch r.Intn(4) {
+		case 0:
+			do(fmt.Sprintf("close:%d", i))
+		case 1:
+			do("stop:" + Hx([]byte(spelling(r, q)))) // the management API: Get(path).Close()
+		case 2: // the idle task of an on-demand pull: consumers (if any) leave, time passes, the task runs
+			do(fmt.Sprintf("idle:%d", i))
+			t := nTask
+			nTask++
+			for j := 0; j < len(joined); {
+				if joined[j][0] == i {
+					do(fmt.Sprintf("leave:%d:%d:%d", i, joined[j][1], joined[j][2]))
+					joined = append(joined[:j], joined[j+1:]...)
+				} else {
+					j++
+				}
+			}
+			do("adv:5000", fmt.Sprintf("tick:%d:%d", t, []int{0, 600, 3600}[r.Intn(3)]))
+		default:
+			do(fmt.Sprintf("close:%d", i), fmt.Sprintf("close:%d", i)) // closed twice
+		}
+	}
+	a := newStream(p)
+	if r.Chance(30) {
+		do("goc:" + Hx([]byte(spelling(r, p)))) // created, not yet registered
+	}
+	do(fmt.Sprintf("reg:%d", a))
+	if other != p && r.Chance(60) {
+		b := newStream(other)
+		do(fmt.Sprintf("reg:%d", b))
+	}
+	if r.Chance(50) {
+		join(a)
+	}
+	closeIt(a, p) // a: closed, still registered
+	cur := a
+	for round, n := 0, 1+r.Intn(3); round < n; round++ {
+		switch r.Intn(5) {
+		case 0: // the publisher leaves at last
+			do(fmt.Sprintf("unreg:%d", cur))
+			closed[cur] = true
+		case 1, 2: // a successor over the closed predecessor; then the predecessor's late unregister
+			nx := newStream(p)
+			do(fmt.Sprintf("reg:%d", nx))
+			if !closed[cur] && attached(cur) > 0 {
+				nTask++ // Regist posts a replaced-task for a live predecessor that still has consumers
+			}
+			if r.Chance(60) {
+				do(fmt.Sprintf("unreg:%d", cur))
+				closed[cur] = true
+			}
+			if r.Chance(40) {
+				join(nx)
+			}
+			cur = nx
+			if r.Chance(60) {
+				closeIt(cur, p)
+			}
+		case 3: // the closed stream is registered again (Regist of the entry itself: no-op; of an unregistered closed stream: a dead entry)
+			do(fmt.Sprintf("reg:%d", cur))
+		default:
+			do(fmt.Sprintf("unreg:%d", cur), fmt.Sprintf("reg:%d", cur)) // unregistered, then registered although closed
+			closed[cur] = true
+		}
+	}
+	for i := 0; i < nStream; i++ {
+		ops = append(ops, fmt.Sprintf("probe:%d", i))
+	}
+	return ops
+}
+
 // ---- classification of a property failure (implementation ≠ specification) ----
 
 func classify(ops []string, impl, spec, why []string) (int, string) {
@@ -533,9 +677,9 @@ func classify(ops []string, impl, spec, why []string) (int, string) {
 			return i, "idle-close-with-consumers-attached"
 		case kind == "tick":
 			return i, "idle-decision"
-		case kind == "get" && spec[i] == "snil":
+		case (kind == "get" || kind == "goc") && spec[i] == "snil":
 			return i, "closed-stream-still-resolved"
-		case kind == "get":
+		case kind == "get" || kind == "goc":
 			return i, "lookup-wrong-stream"
 		case kind == "count" || kind == "infos":
 			return i, "listing-differs-from-live-set"
@@ -593,7 +737,7 @@ func canonClass(kind, p string) string {
 
 func runC05(c *Ctx) {
 	apiInit()
-	c.Res.Rule = "case = one history of registry operations (new/regist/unregist/close/stop/join/leave/idle-tick/get/count/infos/probe over 3 paths in 11 spellings) run on the real media package (stop and listing through the service's HTTP API), or one two-thread race of Regist/Unregist through the verif points, or one string for CanonicalPath; distinct by the op line; non-trivial when the history registers at least one stream and observes at least one lookup"
+	c.Res.Rule = "case = one history of registry operations (new/regist/unregist/close/stop/join/leave/idle-tick/get/getorcreate/count/infos/info/probe over 3 paths in 11 spellings) run on the real media package (stop and listing through the service's HTTP API), or one two-thread race of Regist/Unregist through the verif points, or one string for CanonicalPath; distinct by the op line; non-trivial when the history registers at least one stream and observes at least one lookup"
 	var lines []string
 	type kase struct {
 		kind string // hist | race | canon
@@ -738,6 +882,10 @@ func runC05(c *Ctx) {
 		post := []string{"get:" + Hx([]byte(p)), "count", "probe:0", "probe:1", "probe:2"}
 		addRace(pre, mid, post)
 	}
+	// lookups in every state of a stream's life (generated after the races: the cases above are what they were)
+	for i, n := 0, c.Budget(300, 3000); i < n; i++ {
+		addHist(genLookupHistory(c.Rng))
+	}
 
 	outs := c.Drive(lines)
 	hung := false // an operation of the implementation never returned: the registry may be locked for good
@@ -768,7 +916,7 @@ func runC05(c *Ctx) {
 				if strings.HasPrefix(o, "reg:") {
 					seenReg = true
 				}
-				if strings.HasPrefix(o, "get:") && seenReg {
+				if (strings.HasPrefix(o, "get:") || strings.HasPrefix(o, "goc:")) && seenReg {
 					seenGet = true
 				}
 				c.Count("op-" + strings.SplitN(o, ":", 2)[0])
@@ -781,6 +929,10 @@ func runC05(c *Ctx) {
 					c.Count("get-hit")
 				case strings.HasPrefix(k.ops[j], "get:"):
 					c.Count("get-miss")
+				case strings.HasPrefix(k.ops[j], "goc:") && o != "snil":
+					c.Count("goc-hit")
+				case strings.HasPrefix(k.ops[j], "goc:"):
+					c.Count("goc-miss")
 				case o == "t1":
 					c.Count("tick-closed")
 				case o == "t0":
